@@ -43,8 +43,10 @@ def run(ctx):
             v3, r3 = e3.call_function('bip32.PubKeyNode.ckd', [node, i], facts=f3)
             IL = T.slice_(SP.hmac512(c, T.cat(T.sec(P, T.TRUE), SP.ser32(i))), T.const(0), T.const(32))
             il = T.int_(IL, BIG)
+            # (IL == 0 is refused by both crypto libraries when IL is made a key object; an explicit test is the same)
             allowed = {T.not_(T.lt(il, T.CURVE_N)), T.eq(T.pt_add(T.pt(IL), P), T.INFINITY),
-                       T.not_(T.raw_op('VALID_SK', IL))}
+                       T.not_(T.raw_op('VALID_SK', IL)), T.lt(il, T.const(1)), T.eq(T.const(0), il),
+                       T.not_(T.lt(T.const(0), il))}
             for cs, leaf in raise_leaves(v3):
                 trig = T.hoist(cs[-1]) if cs else None
                 ok = trig is not None and any(trig == T.hoist(a) or T.assume(trig, set(cs[:-1])) == T.assume(a, set(cs[:-1]))
@@ -83,7 +85,7 @@ def run(ctx):
                 pn, k = prv_node(layout)
                 pf = T.obj_fields(pn)
                 facts = Facts().add(T.not_(T.lt(i, T.const(0)))).add(T.lt(i, T.const(H)))
-                pv, _ = ev.call_function('bip32.PrvKeyNode.ckd', [pn, i], facts=facts)
+                pv, pfx = ev.call_function('bip32.PrvKeyNode.ckd', [pn, i], facts=facts)
                 # public projection of the parent: same chain code / depth / index / network, key = serP(point(k))
                 qn = node_term(PUB, T.sec(T.pt(k), T.TRUE), chain=pf['chain_code'], depth=pf['depth'], index=pf['index'],
                                testnet=pf['testnet'])
@@ -93,9 +95,11 @@ def run(ctx):
                     ob.undecided('unexpected exit structure (private %d, public %d normal exits)' % (len(pls), len(qls)))
                     continue
                 pchild = pls[0][1]
+                # what the private derivation established about its child (k_i != 0, ...) holds for the observations below
+                pk_facts = Facts(known_at(pfx, pls[0][0]))
                 for cs, qchild in qls:
                     qf, cf = T.obj_fields(qchild), T.obj_fields(pchild)
-                    pk, _ = ev.call_function('bip32.PrvKeyNode.public_key', [pchild])
+                    pk, _ = ev.call_function('bip32.PrvKeyNode.public_key', [pchild], facts=pk_facts)
                     psec, _ = ev.call_function('keys.PublicKey.sec', [pk])
                     same_term(ob, qf['key'], psec, 'public child key == serP(point(private child key)) [key%s]' % layout, fi.where)
                     same_term(ob, qf['chain_code'], cf['chain_code'], 'chain codes agree [key%s]' % layout, fi.where)
@@ -103,14 +107,14 @@ def run(ctx):
                     same_term(ob, qf['index'], cf['index'], 'child numbers agree', fi.where)
                     same_term(ob, qf['testnet'], cf['testnet'], 'network flags agree', fi.where)
                     a, _ = ev.call_function('bip32.PubKeyNode.fingerprint', [qchild])
-                    b, _ = ev.call_function('bip32.PubKeyNode.fingerprint', [pchild])
+                    b, _ = ev.call_function('bip32.PubKeyNode.fingerprint', [pchild], facts=pk_facts)
                     same_term(ob, a, b, 'fingerprints agree', fi.where)
                     a, _ = ev.call_function('bip32.PubKeyNode.parent_fingerprint', [qchild])
-                    b, _ = ev.call_function('bip32.PubKeyNode.parent_fingerprint', [pchild])
+                    b, _ = ev.call_function('bip32.PubKeyNode.parent_fingerprint', [pchild], facts=pk_facts)
                     same_term(ob, a, b, 'parent fingerprints agree', fi.where)
                     ver = S('ver', type='int')
                     a, _ = ev.call_function('bip32.PubKeyNode.extended_public_key', [qchild], {'version': ver})
-                    b, _ = ev.call_function('bip32.PubKeyNode.extended_public_key', [pchild], {'version': ver})
+                    b, _ = ev.call_function('bip32.PubKeyNode.extended_public_key', [pchild], {'version': ver}, facts=pk_facts)
                     same_term(ob, a, b, 'serialised extended public keys agree', fi.where)
 
     # public derivation must not depend on what was derived from the same node before (shared with C13)
